@@ -63,6 +63,15 @@ Theorem C10_cw_returns_refuted :
   world_wf rf_wd /\ bs_pos rf_wd /\ Inv_st rf_wd (cw_start rf_wd [1]) /\ cw_schedule rf_wd false rf_inv (cw_start rf_wd [1]) = Err 2.
 Proof. exact returns_normally_refuted. Qed.
 Print Assumptions C10_cw_returns_refuted.
+(* the monitor applied to the implementation's decisions, clause by clause *)
+Theorem C10_cw_monitor : forall wd o, mon_invocation wd o = true <->
+  oi_cancelled o = map t_id (filter (hopeless wd (oi_now o)) (oi_offered o)) /\
+  mon_batches wd (oi_now o) (oi_pools o) (oi_batches o) = true /\
+  NoDup (oi_cancelled o ++ oi_placed o) /\
+  (forall i, In i (oi_cancelled o ++ oi_placed o) -> In i (map t_id (oi_offered o))) /\
+  (forall b t, In b (oi_batches o) -> In t (ob_tasks b) -> hopeless wd (oi_now o) t = false).
+Proof. exact mon_invocation_iff. Qed.
+Print Assumptions C10_cw_monitor.
 Theorem C10_cw_example : world_wf ex_wd /\ bs_pos ex_wd /\ res_ok ex_wd /\ map t_id (run_placed (cw_run ex_wd false ex_invs (cw_start ex_wd [1]))) = [1; 2; 6; 4].
 Proof. exact (conj ex_world_wf (conj ex_bs_pos (conj ex_res_ok ex_placed))). Qed.
 Print Assumptions C10_cw_example.
